@@ -13,7 +13,7 @@
    Executable, no proofs. *)
 From Coq Require Import String List NArith Bool.
 From J5V.lib Require Import Outcome.
-From J5V.model Require Import J5sAst Desc J5sWalk.
+From J5V.model Require Import J5sAst Desc J5sWalk J5sConvert.
 Import ListNotations.
 Local Open Scope N_scope.
 
@@ -43,30 +43,32 @@ Definition at_prefix (pre : list N) (l : list loc) : list loc :=
 
 Section Comments.
 Variable camel : str -> str.
+Variable screaming : str -> str.
 Variable t : dtable.
 
 (* enumBuilder: the enum itself and each value only when described; value path [2; number].
-   Numbers as visitEnumNode gives them: a first option ending in UNSPECIFIED is number 0 *)
-Definition enum_locs (epath : list str) (e : enum) : list loc :=
+   Numbers as visitEnumNode gives them: a first option that spells the zero value (enum.go
+   isExplicitZero: UNSPECIFIED / <PREFIX>UNSPECIFIED) is number 0, the others count from 1 *)
+Definition first_is_zero (name : str) (e : enum) : bool :=
+  match e_opts e with o :: _ => explicit_zero (enum_prefix screaming name (e_prefix e)) o | [] => false end.
+Definition enum_locs (epath : list str) (name : str) (e : enum) : list loc :=
   let self := match dget t epath with [] => [] | d => [mkLoc [] epath (fmt_desc d)] end in
-  let first_is_zero := match e_opts e with o :: _ => has_suffix (b "UNSPECIFIED") o | [] => false end in
   let fix vals (n : N) (os : list str) : list loc :=
     match os with
     | [] => []
     | o :: r => (match dget t (epath ++ [o]) with [] => [] | d => [mkLoc [2; n] (epath ++ [o]) (fmt_desc d)] end)
                 ++ vals (N.succ n) r
     end in
-  self ++ vals (if first_is_zero then 0 else 1) (e_opts e).
+  self ++ vals (if first_is_zero name e then 0 else 1) (e_opts e).
 
 (* inline enums: the description sits on the property, the enum gets no location of its own *)
-Definition inline_enum_locs (epath : list str) (e : enum) : list loc :=
-  let first_is_zero := match e_opts e with o :: _ => has_suffix (b "UNSPECIFIED") o | [] => false end in
+Definition inline_enum_locs (epath : list str) (name : str) (e : enum) : list loc :=
   (fix vals (n : N) (os : list str) : list loc :=
      match os with
      | [] => []
      | o :: r => (match dget t (epath ++ [o]) with [] => [] | d => [mkLoc [2; n] (epath ++ [o]) (fmt_desc d)] end)
                  ++ vals (N.succ n) r
-     end) (if first_is_zero then 0 else 1) (e_opts e).
+     end) (if first_is_zero name e then 0 else 1) (e_opts e).
 
 (* what the inline type of a property contributes to the enclosing message (before the
    property's own location), with the nested message / enum counters *)
@@ -77,7 +79,7 @@ Fixpoint field_locs (mpath : list str) (dflt : str) (f : field) (mi ei : N) {str
       (at_prefix [3; mi] (mkLoc [] (mpath ++ [n]) [] :: props_locs (mpath ++ [n]) ps 0 0 0), N.succ mi, ei)
   | FEnumInline e =>
       let n := inline_name dflt (e_name e) in
-      (at_prefix [4; ei] (inline_enum_locs (mpath ++ [n]) e), mi, N.succ ei)
+      (at_prefix [4; ei] (inline_enum_locs (mpath ++ [n]) n e), mi, N.succ ei)
   | FArray it => field_locs mpath dflt it mi ei
   | FMap it => let '(l, mi', ei') := field_locs mpath dflt it mi ei in (l, N.succ mi', ei')   (* the entry message *)
   | _ => ([], mi, ei)
@@ -118,7 +120,7 @@ Fixpoint nested_locs (mpath : list str) (n : nested) {struct n} : list loc :=
       let me := mpath ++ [nm] in
       let '(mi, ei) := props_counts ps 0 0 in
       mkLoc [] me (fmt_desc (dget t me)) :: props_locs me ps 0 0 0 ++ nesteds_locs me subs mi ei
-  | NEnum e => enum_locs (mpath ++ [e_name e]) e
+  | NEnum e => enum_locs (mpath ++ [e_name e]) (e_name e) e
   end
 with nesteds_locs (mpath : list str) (ns : nesteds) (mi ei : N) {struct ns} : list loc :=
   match ns with
